@@ -172,21 +172,22 @@ U_C10 == TLCEval(
 Unsup(w) == [op |-> "unsup", what |-> w]
 SynErr == [op |-> "synerr"]
 C13ModeA(ps, tr, nm) == Mode(nm, ps, tr)
-C13BasePatsA == << Pat(A1, 1), Pat(Cat(A1, A2), 2), Pat(A2, 3) >>
+C13BasePatsA == << Pat(A1, 1), Pat(Cat(A1, A2), 2), Pat(A2, 3), Pat(A12, 4) >>
 C13BasePatsB == << Pat(Plus(A1), 5), PatLa(A2, 3, NegLa(A3)), Pat(A3, 6) >>
 C13Cfg(pa, ta, na, pb, tb) == [modes |-> << Mode(na, pa, ta), Mode("B", pb, tb) >>]
 C13Base == C13Cfg(C13BasePatsA, << <<3, 1>> >>, "A", C13BasePatsB, << <<3, 0>> >>)
 U_C13 == TLCEval(<<
   C13Base,
   \* a token type changed
-  C13Cfg(<< Pat(A1, 4), Pat(Cat(A1, A2), 2), Pat(A2, 3) >>, << <<3, 1>> >>, "A", C13BasePatsB, << <<3, 0>> >>),
+  C13Cfg(<< Pat(A1, 8), Pat(Cat(A1, A2), 2), Pat(A2, 3), Pat(A12, 4) >>, << <<3, 1>> >>, "A", C13BasePatsB, << <<3, 0>> >>),
   \* two patterns swapped (priority)
-  C13Cfg(<< Pat(A1, 1), Pat(A2, 3), Pat(Cat(A1, A2), 2) >>, << <<3, 1>> >>, "A", C13BasePatsB, << <<3, 0>> >>),
+  C13Cfg(<< Pat(A12, 4), Pat(A1, 1), Pat(Cat(A1, A2), 2), Pat(A2, 3) >>, << <<3, 1>> >>, "A", C13BasePatsB, << <<3, 0>> >>),
+  C13Cfg(<< Pat(A1, 1), Pat(A2, 3), Pat(Cat(A1, A2), 2), Pat(A12, 4) >>, << <<3, 1>> >>, "A", C13BasePatsB, << <<3, 0>> >>),
   C13Cfg(C13BasePatsA, << <<3, 1>> >>, "A", << PatLa(A2, 3, NegLa(A3)), Pat(Plus(A1), 5), Pat(A3, 6) >>, << <<3, 0>> >>),
   \* a lookahead added
-  C13Cfg(<< PatLa(A1, 1, PosLa(A2)), Pat(Cat(A1, A2), 2), Pat(A2, 3) >>, << <<3, 1>> >>, "A", C13BasePatsB, << <<3, 0>> >>),
+  C13Cfg(<< PatLa(A1, 1, PosLa(A2)), Pat(Cat(A1, A2), 2), Pat(A2, 3), Pat(A12, 4) >>, << <<3, 1>> >>, "A", C13BasePatsB, << <<3, 0>> >>),
   \* its polarity flipped
-  C13Cfg(<< PatLa(A1, 1, NegLa(A2)), Pat(Cat(A1, A2), 2), Pat(A2, 3) >>, << <<3, 1>> >>, "A", C13BasePatsB, << <<3, 0>> >>),
+  C13Cfg(<< PatLa(A1, 1, NegLa(A2)), Pat(Cat(A1, A2), 2), Pat(A2, 3), Pat(A12, 4) >>, << <<3, 1>> >>, "A", C13BasePatsB, << <<3, 0>> >>),
   \* a lookahead removed / its text changed / polarity flipped (mode B)
   C13Cfg(C13BasePatsA, << <<3, 1>> >>, "A", << Pat(Plus(A1), 5), Pat(A2, 3), Pat(A3, 6) >>, << <<3, 0>> >>),
   C13Cfg(C13BasePatsA, << <<3, 1>> >>, "A", << Pat(Plus(A1), 5), PatLa(A2, 3, NegLa(A1)), Pat(A3, 6) >>, << <<3, 0>> >>),
@@ -198,9 +199,13 @@ U_C13 == TLCEval(<<
   \* a mode renamed
   C13Cfg(C13BasePatsA, << <<3, 1>> >>, "A2", C13BasePatsB, << <<3, 0>> >>),
   \* a pattern spelled differently with the same language
-  C13Cfg(<< Pat(Alt(A1, A1), 1), Pat(Cat(A1, A2), 2), Pat(A2, 3) >>, << <<3, 1>> >>, "A", C13BasePatsB, << <<3, 0>> >>),
+  C13Cfg(<< Pat(Alt(A1, A1), 1), Pat(Cat(A1, A2), 2), Pat(A2, 3), Pat(A12, 4) >>, << <<3, 1>> >>, "A", C13BasePatsB, << <<3, 0>> >>),
   \* does not build: a syntax error; an unsupported construct in the SECOND mode (the first
   \* mode has been compiled when the error is found) and in a lookahead
+  \* unrelated configurations with fewer and with more modes
+  OneMode(<< Pat(A12, 4), Pat(A1, 1) >>),
+  OneMode(C13BasePatsA),
+  [modes |-> << Mode("A", C13BasePatsA, << <<3, 2>> >>), Mode("B", C13BasePatsB, << <<3, 0>> >>), Mode("C", << Pat(A2, 3), Pat(A1, 9) >>, << <<3, 1>> >>) >>],
   C13Cfg(<< Pat(A1, 1), Pat(SynErr, 2), Pat(A2, 3) >>, << <<3, 1>> >>, "A", C13BasePatsB, << <<3, 0>> >>),
   C13Cfg(C13BasePatsA, << <<3, 1>> >>, "A", << Pat(Plus(A1), 5), Pat(Unsup("a*?"), 3), Pat(A3, 6) >>, << <<3, 0>> >>),
   C13Cfg(C13BasePatsA, << <<3, 1>> >>, "A", << Pat(Plus(A1), 5), PatLa(A2, 3, NegLa(Unsup("\\bx"))), Pat(A3, 6) >>, << <<3, 0>> >>)
@@ -224,19 +229,23 @@ PlantInSeq(xs, j, k, u) ==
 \* constructs the documentation lists as unsupported, in concrete syntax
 UnsupPool == << "^", "$", "\\A", "\\z", "\\b", "\\B", "(?i)", "(?i:a)", "(?s-m:a)", "a*?", "a+?", "a??", "a{1,2}?",
                 "\\p{Greek}", "\\p{sc=Greek}", "\\pX", "\\P{Cyrillic}", "[\\p{Greek}]", "[a\\pX]", "[^\\p{sc=Latin}b]",
-                "[a&&\\p{Greek}]", "(?m)" >>
+                "[a&&\\p{Greek}]", "(?m)", "\\p{L}", "\\P{N}", "\\p{Z}", "\\p{lowercase}", "\\p{Lu}" >>
 \* host regexes built only from supported constructs (depth <= 3)
 Hosts == << A1, Cat(A1, A2), Alt(A1, A2), Star(A12), Plus(Cat(A1, A2)), Opt(Alt(A1, Eps)), Rep(A1, 1, 2),
             Cat(Star(A1), Alt(A2, Cat(A1, A3))), Alt(Cat(A1, A2), Plus(A3)), Rep(Alt(A1, A2), 0, -1),
-            Cat(Cat(A1, Opt(A2)), Star(Alt(A3, A1))), Alt(Eps, Cat(A1, Rep(A2, 2, 2))) >>
+            Cat(Cat(A1, Opt(A2)), Star(Alt(A3, A1))), Alt(Eps, Cat(A1, Rep(A2, 2, 2))),
+            Cat(A1, Rep(A2, 0, 0)), Rep(Alt(A1, Cat(A2, A3)), 0, 2), Cat(Rep(Cat(A1, A2), 0, 0), A3) >>
 \* (host, position, construct) triples, flattened
 HostOff == [h \in 1..(Len(Hosts) + 1) |-> SumSizes(Hosts, 1) - SumSizes(Hosts, h)]   \* nodes before host h
 NPlantPos == SumSizes(Hosts, 1)
 HostOfPos(q) == CHOOSE h \in 1..Len(Hosts) : HostOff[h] < q /\ q <= HostOff[h + 1]
 Planted(q, u) == LET h == HostOfPos(q) IN PlantAt(Hosts[h], q - HostOff[h], Unsup(UnsupPool[u]))
 \* placements: pattern of mode 1, pattern of mode 2, lookahead in mode 1, lookahead in mode 2
+\* a companion pattern registers supported classes that an unsupported one could be mistaken for
+SrcLeaf(t) == [op |-> "cls", set |-> <<>>, src |-> t]
+Companion == Cat(Cat(SrcLeaf("\\pL"), SrcLeaf("\\PN")), Cat(SrcLeaf("\\pZ"), Cat(SrcLeaf("\\p{Lowercase}"), SrcLeaf("[\\p{Uppercase}a]"))))
 Place(re, w) ==
-  CASE w = 1 -> [modes |-> << Mode("M0", << Pat(A1, 1), Pat(re, 2) >>, <<>>) >>]
+  CASE w = 1 -> [modes |-> << Mode("M0", << Pat(Companion, 1), Pat(re, 2) >>, <<>>) >>]
     [] w = 2 -> [modes |-> << Mode("M0", << Pat(A1, 1) >>, << <<1, 1>> >>), Mode("M1", << Pat(re, 2), Pat(A2, 3) >>, <<>>) >>]
     [] w = 3 -> [modes |-> << Mode("M0", << PatLa(A1, 1, PosLa(re)), Pat(A2, 2) >>, <<>>) >>]
     [] w = 4 -> [modes |-> << Mode("M0", << Pat(A1, 1) >>, <<>>), Mode("M1", << PatLa(A2, 3, NegLa(re)) >>, <<>>) >>]
